@@ -2,11 +2,12 @@
 # metamorph.sh [PID...] : runs the quick checks on /repo with the extracted facts rewritten into an equivalent program
 #   MSA_META=flip : every comparison with its operands exchanged (a < b  =>  b > a)
 #   MSA_META=not  : every `!x` as `x == false`, every `x == false` as `!x`
+#   MSA_META=rename : every local variable and parameter gets another name
 # The verdict of every check must be the same as on the unrewritten facts (exit 0).  Anything else is a defect of the checker: the rule depends on spelling.
 cd "$(dirname "$0")/.."
 PIDS=${@:-C01 C02 C03 C04 C05 C06 C07 C08 C10 C11 C12 C13 C14 C15 C16 C17 C18 C19 C20}
 bad=0
-for m in flip not; do
+for m in flip not rename; do
   for p in $PIDS; do
     out=$(MSA_META=$m MSA_OUT_SUFFIX=meta-$m ./check $p --no-evidence 2>&1); rc=$?
     if [ $rc -ne 0 ]; then bad=$((bad+1)); echo "$p MSA_META=$m exit $rc: $(echo "$out" | grep '^  \|BROKEN' | head -1 | cut -c1-220)"; fi
